@@ -10,6 +10,10 @@ import numpy as np
 LD = np.longdouble
 
 PAD_MODES = ("edge", "constant", "reflect", "symmetric")
+# further numpy.pad modes whose padded VALUES depend on the pad width or on statistics of the vector: the
+# extension is taken from numpy.pad itself (a trusted library, not the code under test) with the width the
+# class documents for a delta of that order (half the length of its composite filter)
+NUMPY_PAD_MODES = ("linear_ramp", "wrap", "mean", "maximum", "minimum", "median")
 
 
 # ----------------------------------------------------------------------------- Deltas
@@ -72,6 +76,17 @@ def deltas_along_last(xm, filt, mode):
     T = xm.shape[-1]
     M = (len(filt) - 1) // 2
     out = np.zeros(xm.shape, dtype=LD)
+    if mode in NUMPY_PAD_MODES:
+        flat = xm.reshape(-1, T)
+        res = np.zeros(flat.shape, dtype=LD)
+        for r in range(flat.shape[0]):
+            ext = np.pad(flat[r].astype(np.float64), (M, M), mode).astype(LD)
+            for t in range(T):
+                acc = LD(0)
+                for j in range(-M, M + 1):
+                    acc = acc + filt[j + M] * ext[t + j + M]
+                res[r, t] = acc
+        return res.reshape(xm.shape)
     for t in range(T):
         for j in range(-M, M + 1):
             src = ext_index(t + j, T, mode)
